@@ -624,7 +624,7 @@ class GMMMachine(BaseEstimator):
                 n_gaussians=hdf5["n_gaussians"][()],
                 trainer=trainer,
                 ubm=ubm,
-                convergence_threshold=1e-5,
+                convergence_threshold=hdf5["convergence_threshold"][()],
                 max_fitting_steps=hdf5["max_fitting_steps"][()],
                 weights=hdf5["weights"][...],
                 k_means_trainer=None,
